@@ -4,8 +4,11 @@
 seeds=${1:-"1 2 3"}; tier=${2:-quick}; props=${3:-"C01 C02 C03 C04 C05 C06 C07 C08 C09 C10 C11 C12 C15 C16 C17 C18 C19 C20"}
 export HIVESIM_OUT_DIR=${HIVESIM_OUT_DIR:-$(pwd)/soak_out}
 mkdir -p "$HIVESIM_OUT_DIR"
+bad=0
 for s in $seeds; do for p in $props; do
   out=$(VERIF_SEED=$s /venv/bin/python -m hivesim check $p --tier $tier 2>&1); rc=$?
+  [ $rc -ne 0 ] && bad=1
   echo "seed=$s $p exit=$rc $(echo "$out" | grep "^$p: runs" | head -1)"
   echo "$out" | grep -E "^(VIOLATION|  rule=|HARNESS-ERROR|KNOWN-FINDING)" | cut -c1-600
 done; done
+exit $bad
